@@ -403,6 +403,10 @@ class BaseWorklist(list):
             # check that all excluded wells fall in the range
             dst_range = set(range(dst_start, dst_end + 1))
             invalid_exclusion_wells = set(exclude_list).difference(dst_range)
+            # 3.0 == 3 and True == 1 hash like the integers, but are written differently
+            invalid_exclusion_wells.update(
+                w for w in exclude_list if not isinstance(w, (int, numpy.integer)) or isinstance(w, bool)
+            )
             if len(invalid_exclusion_wells) > 0:
                 raise ValueError(
                     f"The excluded wells {invalid_exclusion_wells} are not in the destination interval [{dst_start},{dst_end}]"
